@@ -51,6 +51,7 @@ def start_shards(pid, tier, vseed, nshards, work, hashseed_mode, only):
         env = dict(os.environ)
         env["PYTHONHASHSEED"] = str(i) if hashseed_mode == "vary" else "0"
         env["MPLBACKEND"] = "Agg"
+        env["PV_AMBIENT"] = "errstate_ignore" if i % 2 == 1 else "default"
         env["OMP_NUM_THREADS"] = env["OPENBLAS_NUM_THREADS"] = env["MKL_NUM_THREADS"] = "1"
         out = os.path.join(work, "shard_%d.json" % i)
         cmd = [PY, "-m", "pv.worker", pid, tier, str(vseed), str(i), str(nshards), out, only or ""]
@@ -125,7 +126,7 @@ def aggregate(mod, results):
             for h, (val, case) in s.get("values", {}).items():
                 a["values"].setdefault(h, {"case": case, "by": {}})["by"].setdefault(val, []).append(r.get("hashseed"))
             for sig, f in s["failures"].items():
-                g = a["failures"].setdefault(sig, {"count": 0, "msg": f["msg"], "cases": [], "hashseed": r.get("hashseed")})
+                g = a["failures"].setdefault(sig, {"count": 0, "msg": f["msg"], "cases": [], "hashseed": r.get("hashseed"), "ambient": r.get("ambient")})
                 g["count"] += f["count"]
                 g["cases"].extend(f["cases"])
                 g["cases"].sort(key=lambda c: len(json.dumps(c)))
@@ -145,7 +146,7 @@ def aggregate(mod, results):
     return agg
 
 
-def write_replay(pid, clause, sig, case, msg, hashseed, prefix=""):
+def write_replay(pid, clause, sig, case, msg, hashseed, prefix="", ambient=None):
     from .core import case_hash
     d = os.path.join(os.environ.get("PV_REPLAY_DIR") or os.path.join(VERIF, "replays"), pid)
     os.makedirs(d, exist_ok=True)
@@ -153,7 +154,7 @@ def write_replay(pid, clause, sig, case, msg, hashseed, prefix=""):
     path = os.path.join(d, name)
     with open(path, "w") as fh:
         json.dump({"property": pid, "clause": clause, "signature": sig, "message": msg,
-                   "hashseed": hashseed, "case": case}, fh, indent=1)
+                   "hashseed": hashseed, "ambient": ambient or "default", "case": case}, fh, indent=1)
     return path
 
 
@@ -162,8 +163,11 @@ def do_replay(mod, pid, path):
     with open(path) as fh:
         rep = json.load(fh)
     hs = rep.get("hashseed")
-    if hs is not None and os.environ.get("PYTHONHASHSEED") != str(hs) and not os.environ.get("PV_REEXEC"):
-        env = dict(os.environ, PYTHONHASHSEED=str(hs), PV_REEXEC="1")
+    amb = rep.get("ambient") or "default"
+    if ((hs is not None and os.environ.get("PYTHONHASHSEED") != str(hs)) or os.environ.get("PV_AMBIENT", "default") != amb) and not os.environ.get("PV_REEXEC"):
+        env = dict(os.environ, PV_REEXEC="1", PV_AMBIENT=amb)
+        if hs is not None:
+            env["PYTHONHASHSEED"] = str(hs)
         os.execve(PY, [PY, "-m", "pv.runner"] + sys.argv[1:], env)
     clause = {c.name: c for c in mod.CLAUSES}[rep["clause"]]
     res = run_case(clause, rep["case"])
@@ -286,6 +290,7 @@ def main(argv=None):
                 if "no_result_within" in sig or os.environ.get("PV_NO_SHRINK"):
                     raise RuntimeError("no shrinking of non-terminating cases / shrinking switched off (sensitivity tooling)")
                 budget = 300 if args.tier == "quick" else 1500
+                os.environ["PV_AMBIENT"] = f.get("ambient") or "default"      # shrink and re-run under the setting the shard ran with
                 small, _ = shrink(clauses[name], case, sig, budget=budget, wall=45.0 if args.tier == "quick" else 240.0,
                                   valid=getattr(mod, "VALID", {}).get(name, getattr(mod, "VALID_DEFAULT", None)))
             except Exception:  # noqa: BLE001
@@ -298,7 +303,8 @@ def main(argv=None):
                     small = case
             else:
                 msg = f["msg"]
-            path = write_replay(pid, name, sig, small, msg, f.get("hashseed"))
+            os.environ.pop("PV_AMBIENT", None)
+            path = write_replay(pid, name, sig, small, msg, f.get("hashseed"), ambient=f.get("ambient"))
             violations.append((sig, rel(path), "%s (x%d)" % (msg, f["count"])))
 
     floor_errors = []
@@ -383,6 +389,8 @@ def write_evidence(mod, pid, tier, vseed, agg, pre, violations, known_matched, w
             "exhaustive": False,
             "clauses": per,
             "engine": "hypothesis %s, %d fresh shard processes, seed=sha256(VERIF_SEED,ID,clause,shard)" % (_hyp_version(), NSHARDS_DEFAULT),
+            "ambient_settings": "shards with an even index run under NumPy's default floating-point error handling ('warn'), shards with an odd "
+                                "index under np.errstate(all='ignore'); a failure records the setting and its replay re-executes under it",
             "fixed_regression_replays_run": pre["fixed_run"],
             "known_findings_listed": [f["id"] for f in findings["open"] if f["property"] == pid],
             "generated_cases_matching_known_finding": known_matched,
